@@ -239,9 +239,7 @@ def iv(v):
 def proj_entry(x):
     pk = []
     if x.prev:
-        if len(x.prev) != 1:
-            raise common.MachineryError('prev set with more than one element')
-        pk = key_of(next(iter(x.prev)))
+        pk = key_of(sorted(x.prev, key=lambda q: str(q.key))[0])
     return {'st': st_of(x), 'obs': x.obs, 'ne': x.obs_ne, 'lp': iv(x.logprob), 'lpe': iv(x.logprobe),
             'lpne': iv(x.logprobne), 'prev': pk, 'stop': bool(x.stop), 'len': x.length, 'delayed': x.delayed,
             'dist': iv(x.dist_obs)}
@@ -262,6 +260,8 @@ def dangling(m):
                         stored = col.o[p.obs_ne].get(p.key)
                     if stored is not p:
                         out.append([key_of(x), key_of(p)])
+                if len(x.prev) > 1:
+                    out.append([key_of(x), 'several-best-predecessors'])
     return out
 
 
